@@ -12,7 +12,7 @@ REQUIRED = ["CurveFitting.__init__", "CurveFitting.set", "CurveFitting._compute_
             "CurveFitting.quadratic_fitting", "CurveFitting.general_fitting"]
 THEOREMS = ["C17_sums", "C17_linear_normal_equations", "C17_quadratic_normal_equations",
             "C17_general_normal_equations", "C17_general_eq_quadratic", "C17_general_eq_linear",
-            "C17_degenerate_refused", "C17_correlation"]
+            "C17_degenerate_refused", "C17_correlation", "C17_input_forms"]
 PROOF_TIMEOUT = {"quick": 1500, "thorough": 3000}
 EXHAUSTIVE = False
 MANIFEST = {
@@ -27,21 +27,23 @@ EXPLANATION = ("The model of CurveFitting regenerated from /repo is read in exac
                "let a result through (field); binary64 rounding is not covered by the theorems and is searched against an "
                "exact rational reference with a conditioning gate.")
 CLAUSES = {
-    "stored sums are N, Sx, Sx2, Sx3, Sx4, Sy, Sxy, Sx2y, Sy2 (any length)": "proved [ideal, induction over the generated loop]",
-    "linear fit solves the 2x2 normal equations when the guard passes": "proved [ideal, any length]",
-    "quadratic fit solves the 3x3 normal equations when the guard passes": "proved [ideal, any length]",
-    "general fit: residuals orthogonal to every basis function (arbitrary f0,f1,f2), 3- and 2-function branch": "proved [ideal, any length]",
-    "general(x^2, x, 1) = quadratic fit; general(x, 1, 0) = linear fit": "proved [ideal, any length, as equalities of the returned real expressions]",
-    "exactly degenerate data (all x equal) => ZeroDivisionError": "proved [ideal]; binary64 on inexact sums: known finding degenerate-inexact-not-refused (absolute TOL guard); exact-sum degenerate data searched strictly",
-    "correlation coefficient formula, |r| <= 1, sign flip under y -> -y": "proved [ideal, any length; Cauchy-Schwarz over lists]",
-    "r = +-1 for collinear data; invariance under positive affine rescaling": "unproved (searched): checked on the implementation against the exact rational r (|r| <= 1 + 1e-9 accepted: rounding)",
-    "relative 1e-6 agreement of the binary64 result with the exact rational solution on well-conditioned data": "unproved (searched): rounding is outside the ideal instance; Fraction reference with conditioning gate",
-    "independence of point order and input form": "proved [ideal] for the sums being symmetric is not stated separately; searched: all permutations of small sets, 4 input forms bit-identical",
+    "stored sums are N, Sx, Sx2, Sx3, Sx4, Sy, Sxy, Sx2y, Sy2 (float data lists of any length)": "proved [ideal, induction over the generated loop of _compute_parameters]",
+    "linear fit solves the 2x2 normal equations / residuals orthogonal to x and 1 when the guard passes, else ZeroDivisionError": "proved [ideal, any length]",
+    "quadratic fit solves the 3x3 normal equations / residuals orthogonal to x^2, x, 1 when the guard passes, else ZeroDivisionError": "proved [ideal, any length]",
+    "general fit: residuals orthogonal to every basis function (ARBITRARY f0,f1,f2; 3-function branch), 2x2 normal equations in the 2-function branch, refusals": "proved [ideal, non-empty data of any length, induction over the generated loop of general_fitting]",
+    "general(x^2, x, 1) = quadratic fit; general(x, 1, null) = linear fit": "proved [ideal, any length, equal returned values; side conditions: the guards of both methods pass (general(x,1) additionally needs Sx2 >= TOL)]",
+    "exactly degenerate data (all x equal) => ZeroDivisionError from linear/quadratic fit and correlation": "proved [ideal]; binary64 on inexact sums: known finding degenerate-inexact-not-refused (absolute TOL guard vs rounding); exact-sum degenerate data searched strictly (key degenerate-not-refused)",
+    "correlation coefficient = cov/(sqrt varx * sqrt vary), |r| <= 1, sign flip under y -> -y": "proved [ideal, any length; Cauchy-Schwarz over lists]",
+    "input forms: lists (truncated to the shorter), tuples, interleaved scalars (odd one dropped), copy constructor give the same object; one pair refused": "proved [ideal, two points with symbolic entries]; searched for 2-200 points: 7 forms bit-identical",
+    "r = +-1 for collinear data; invariance under positive affine rescaling": "unproved (searched): checked on the implementation against the exact rational r (|r| <= 1 + 1e-9 accepted: binary64 rounding gives up to 1.0000000000000844 on collinear data)",
+    "relative 1e-6 agreement of the binary64 result with the exact rational solution on well-conditioned data; noiseless data recovered": "unproved (searched): rounding is outside the ideal instance; Fraction reference with a conditioning gate (first-order rounding estimate of the closed form <= 1e-7 relative)",
+    "independence of the order of the points": "unproved (searched): all permutations of sets of <= 5 points, 3 random ones of larger sets (the proved sums are symmetric, but no separate permutation theorem is stated)",
+    "general_fitting(f0, f1) with the default null third function": "modelled by hand: the translator cannot render the lambda default, cases pass bf_zero explicitly; the search checks general_fitting(bf_x, bf_one) == general_fitting(bf_x, bf_one, bf_zero) on the implementation",
 }
 
 
 def proof_files(tier):
-    return ["C17_whnf.v", "C17_tac.v", "C17_sums.v", "C17_fits.v", "C17_general.v", "C17_corr.v", "C17_main.v", "C17.v"]
+    return ["C17_whnf.v", "C17_tac.v", "C17_sums.v", "C17_fits.v", "C17_general.v", "C17_corr.v", "C17_ctor.v", "C17_main.v", "C17.v"]
 
 
 # ------------------------------------------------------------------ data generators
